@@ -403,5 +403,29 @@ def key_swap(p: Any) -> Any:
     return p
 
 
-def siblings(p: Any) -> list:
-    return [kind_swap(p), id_shift(p), key_swap(p)]
+def arg_flip(p: Any) -> Any:
+    """sibling for warm-up calls: the arguments of every Instantiate node change their nature -- a metavariable
+    argument becomes the element variable of the same number, any other argument becomes a metavariable -- so the same
+    notation body is seen with arguments for which a per-body answer (is it an alias of a metavariable? is x fresh?) differs"""
+    from frozendict import frozendict
+    from proof_generation import pattern as P
+
+    if isinstance(p, (P.Implies, P.App)):
+        return type(p)(arg_flip(p.left), arg_flip(p.right))
+    if isinstance(p, (P.Exists, P.Mu)):
+        return type(p)(p.var, arg_flip(p.subpattern))
+    if isinstance(p, (P.ESubst, P.SSubst)):
+        return type(p)(p.pattern, p.var, arg_flip(p.plug))
+    if isinstance(p, P.Instantiate):
+        return P.Instantiate(p.pattern, frozendict({k: (P.EVar(v.name) if isinstance(v, P.MetaVar) else P.MetaVar(k)) for k, v in p.inst.items()}))
+    return p
+
+
+def siblings(p: Any, ctx: Any = None) -> list:
+    """with ctx: every rotation of the list is explored (a memo that keeps its first answer is poisoned by whichever
+    sibling comes first)"""
+    sibs = [kind_swap(p), id_shift(p), key_swap(p), arg_flip(p)]
+    if ctx is not None:
+        r = ctx.choose(len(sibs), 'first earlier call')
+        sibs = sibs[r:] + sibs[:r]
+    return sibs
